@@ -231,6 +231,14 @@ def field_val(key, alt):
     return PALETTE_RS[key][alt]
 
 
+def int_spelling(x, key=''):
+    """an integer literal denoting x: decimal, hex / octal / binary, with digit separators or an i64 suffix"""
+    f = (len(key) + abs(x)) % 6
+    if x < 0 or f == 0:
+        return str(x) + ('i64' if f == 5 and x > -2 ** 62 else '')
+    return [None, '0x%X' % x, '0o%o' % x, '0b%s' % bin(x)[2:], '%s_i64' % format(x, ',').replace(',', '_'), format(x, ',').replace(',', '_')][f]
+
+
 class EnumGen:
     palette_map = {}
     generic_bound = None
@@ -278,7 +286,7 @@ class EnumGen:
         if k == 'det':
             return 'detailed_message = %s' % rust_str(val)
         if k == 'props':
-            return 'props(%s%s)' % (', '.join('%s = %s' % (key, rust_str(x) if t == 's' else (str(x) if t == 'i' else ('true' if x else 'false')))
+            return 'props(%s%s)' % (', '.join('%s = %s' % (key, rust_str(x) if t == 's' else (int_spelling(x, key) if t == 'i' else ('true' if x else 'false')))
                                            for key, t, x in val), ',' if len(ident) % 2 else '')
         raise ValueError(k)
 
@@ -848,6 +856,7 @@ class EnumGen:
             out.append('        %s => %d,' % (self.pat_any(v), i))
         out += ['    }', '}',
                 'fn by_ident(id: &str) -> Inst { mk(id, 0, "").expect("ident") }',
+                'fn _key_type_is_inferred() -> u8 { let mut t = %s::filled(1u8); t[%s::%s.into()] = 2; t[%s::%s.into()] }' % (TB, n, en[0].ident, n, en[0].ident) if en else '',
                 'struct NotClone(i64);',
                 'fn _table_of_non_clone() -> i64 { let t = %s::new(%s); let t = t.transform(|_, v| NotClone(v.0 + 1)); let u = %s::from_closure(|k| NotClone(decl_index(&k))); %s }'
                 % (TB, ', '.join('NotClone(%d)' % i for i in range(len(en))), TB, ' + '.join(['0'] + ['t[%s::%s].0 + u[%s::%s].0' % (n, v.ident, n, v.ident) for v in en])),
